@@ -137,6 +137,16 @@ type c11Scenario struct {
 	// indexers of override.EnforceUnicity apply the documented defaults to build the key), so the project still has
 	// one entry.  RSpell is the spelling (I / D) of each default-able site in the restated copy; sites written with
 	// another value (O) are repeated as they are, so both copies always describe the same entry.
+	//
+	// Round 7 — the implicit-vs-explicit oracle ACROSS layers.  3 = bare restatement: the other layer states the same
+	// parent (the build section, the one port / secret / env_file entry) in its SHORT spelling (`build: <dir>`,
+	// `"8080:80"`, `sec`, `e.env`) and so mentions none of the default-able attributes, whatever the defining layer
+	// wrote for them (I, D or another value — nothing is repeated); IMP has the LONG spelling of the same bare parent
+	// (`build: {context: <dir>}` / `build: {}`, `{target: 80, published: "8080"}`, `{source: sec}`, `{path: e.env}`).
+	// A short spelling leaves every default implicit: a merge that completes it with a default too early (at merge
+	// time instead of in Canonical / SetDefaultValues / Normalize) overwrites what the other layer wrote, the long
+	// spelling does not, and the two projects differ (check 1); for a mapping parent (build) the value written by the
+	// defining layer must moreover survive (check 2).  Unit `build` also takes form 1 (long restatement with RSpell).
 	Restate map[string]int `json:"restate,omitempty"`
 	RSpell  map[string]int `json:"rspell,omitempty"`
 	// Svc: the name of the service that carries the default-able attributes ("" = `a`).  Service keys are user
@@ -225,6 +235,17 @@ func c11Build(sc c11Scenario, implicit bool) (files map[string]string, configFil
 				l2["depends_on.required"] = 1
 			}
 		}
+		if c11TwoLayers(sc.Origin) && sc.Restate["depends_on"] == 3 && sc.Dep2 != 2 {
+			// everything that is said about depends_on is said in ONE layer, so that the other layer holds nothing but
+			// the bare restatement — in both spellings (a D leaf that IMP drops must not decide whether it is written)
+			for _, k := range []string{"depends_on.required", "links.depends_on", "ipc.depends_on", "volumes_from.depends_on"} {
+				l2[k] = l2["depends_on.condition"]
+			}
+		}
+		if c11TwoLayers(sc.Origin) && sc.Restate["build"] != 0 {
+			// the build section is defined in ONE layer (the one of its dockerfile) and restated in the other
+			l2["build.base"], l2["build.context"] = l2["build.dockerfile"], l2["build.dockerfile"]
+		}
 		sc.Layer = l2
 	}
 	sp := func(id string) int {
@@ -302,13 +323,39 @@ func c11Build(sc c11Scenario, implicit bool) (files map[string]string, configFil
 			val(sub(at("build.dockerfile"), "build"), "dockerfile", "build.dockerfile")
 		}
 	}
+	if f := restate("build"); f != 0 && !absent["build"] {
+		dir := "."
+		if sp("build.context") == spO {
+			dir = site("build.context").Oth.(string) // both layers speak about the same directory
+		}
+		o := other("build.dockerfile")
+		switch {
+		case f == 3 && !implicit:
+			o["build"] = dir // short syntax: everything but the context is left implicit
+		case f == 3:
+			b := map[string]any{}
+			if sp("build.context") == spO {
+				b["context"] = dir
+			}
+			o["build"] = b
+		default:
+			b := map[string]any{}
+			valR(b, "context", "build.context")
+			if !sc.Inline {
+				valR(b, "dockerfile", "build.dockerfile")
+			}
+			o["build"] = b
+		}
+	}
 	if !absent["ports"] {
 		p := map[string]any{"target": 80, "published": "8080"}
 		val(p, "protocol", "ports.protocol")
 		val(p, "mode", "ports.mode")
 		at("ports")["ports"] = []any{p}
 		if f := restate("ports"); f != 0 {
-			if f == 2 && !implicit && sp("ports.protocol") != spO && sp("ports.mode") != spO {
+			if f == 3 && implicit {
+				other("ports")["ports"] = []any{map[string]any{"target": 80, "published": "8080"}}
+			} else if f == 3 || f == 2 && !implicit && sp("ports.protocol") != spO && sp("ports.mode") != spO {
 				other("ports")["ports"] = []any{"8080:80"} // Canonical expands it to protocol tcp, mode ingress
 			} else {
 				p2 := map[string]any{"target": 80, "published": "8080"}
@@ -323,7 +370,9 @@ func c11Build(sc c11Scenario, implicit bool) (files map[string]string, configFil
 		val(s, "target", "secrets.target")
 		at("secrets")["secrets"] = []any{s}
 		if f := restate("secrets"); f != 0 {
-			if f == 2 && !implicit && sp("secrets.target") != spO {
+			if f == 3 && implicit {
+				other("secrets")["secrets"] = []any{map[string]any{"source": "sec"}}
+			} else if f == 3 || f == 2 && !implicit && sp("secrets.target") != spO {
 				other("secrets")["secrets"] = []any{"sec"}
 			} else {
 				s2 := map[string]any{"source": "sec"}
@@ -346,7 +395,13 @@ func c11Build(sc c11Scenario, implicit bool) (files map[string]string, configFil
 			at("env_file")["env_file"] = []any{e}
 		}
 		if f := restate("env_file"); f != 0 {
-			if f == 2 && !implicit && sp("env_file.required") != spO && !sc.NullRes {
+			if f == 3 && (implicit || sc.NullRes) {
+				e2 := map[string]any{"path": "e.env"}
+				if sc.NullRes {
+					e2["format"] = "c11raw" // the short form cannot hold the sibling: long and bare in both spellings
+				}
+				other("env_file")["env_file"] = []any{e2}
+			} else if f == 3 || f == 2 && !implicit && sp("env_file.required") != spO && !sc.NullRes {
 				other("env_file")["env_file"] = []any{"e.env"}
 			} else {
 				e2 := map[string]any{"path": "e.env"}
@@ -473,6 +528,22 @@ func c11Build(sc c11Scenario, implicit bool) (files map[string]string, configFil
 			layers[listForm]["depends_on"] = []any{"b", "b2", "b3"}
 		} else {
 			layers[listForm]["depends_on"] = []any{"b"}
+		}
+	}
+
+	if restate("depends_on") == 3 && !absent["depends_on"] && sc.Dep2 != 2 {
+		// bare restatement of the dependency on `b` in the other layer, when that layer says nothing else about
+		// depends_on: the list `[b]` (EXP) vs the long entry the specification gives for it (IMP).  The short syntax
+		// of depends_on is DEFINED as `{condition: service_started, required: true}` by both expansion sites
+		// (transformDependsOn, override.convertIntoMapping; C03's mergeDependsOn_short_eq_long), so IMP writes both —
+		// see design/C11.md, round 7, for what the minimal long entry `{condition: service_started}` does instead.
+		o := layers[1-sc.Layer["depends_on.condition"]&1]
+		if _, has := o["depends_on"]; !has {
+			if implicit {
+				o["depends_on"] = map[string]any{"b": map[string]any{"condition": "service_started", "required": true}}
+			} else {
+				o["depends_on"] = []any{"b"}
+			}
 		}
 	}
 
@@ -798,7 +869,7 @@ func c11RealMeta(raw json.RawMessage) any {
 		absent[u] = true
 	}
 	for _, s := range c11Sites {
-		if c11Eff(sc, s.ID) != spO || absent[c11UnitOf(s.ID)] {
+		if c11Eff(sc, s.ID) != spO || absent[c11UnitOf(s.ID)] || c11BareReplaced(sc, s.ID) {
 			continue
 		}
 		want := s.Want
@@ -814,7 +885,7 @@ func c11RealMeta(raw json.RawMessage) any {
 	// (5) every site that is not written with another value shows the documented default
 	{
 		for _, s := range c11Sites {
-			if c11Eff(sc, s.ID) == spO || absent[c11UnitOf(s.ID)] || s.ID == "default.network" {
+			if c11Eff(sc, s.ID) == spO || absent[c11UnitOf(s.ID)] || s.ID == "default.network" || c11BareReplaced(sc, s.ID) {
 				continue
 			}
 			if s.ID == "service.networks" && sc.NoDefUse {
@@ -908,6 +979,25 @@ func c11RealMeta(raw json.RawMessage) any {
 		}
 	}
 	return res
+}
+
+// c11BareReplaced: the site belongs to a LIST entry (port / secret / env_file) that the other layer restates bare
+// (Restate 3) while this scenario writes another value somewhere in the entry.  A list entry is not merged
+// attribute by attribute: the later copy replaces the earlier one when both have the same unicity key, and is a
+// second entry when the key differs (protocol udp, another target) — which of the two the absolute checks (2) and
+// (5) would have to look at depends on the direction of the merge; what is demanded of these scenarios is check
+// (1): the short and the long spelling of the bare copy load to the same project.
+func c11BareReplaced(sc c11Scenario, id string) bool {
+	u := c11UnitOf(id)
+	if !c11TwoLayers(sc.Origin) || sc.Restate[u] != 3 || u == "build" {
+		return false
+	}
+	for _, s := range c11Sites {
+		if c11UnitOf(s.ID) == u && c11Eff(sc, s.ID) == spO {
+			return true
+		}
+	}
+	return false
 }
 
 // c11Get2 follows a ".a.b[0].c" path.
@@ -1008,11 +1098,23 @@ func c11RandomScenario(r *rand.Rand) c11Scenario {
 				if sc.Restate == nil {
 					sc.Restate, sc.RSpell = map[string]int{}, map[string]int{}
 				}
-				sc.Restate[u] = 1 + r.Intn(2)
+				sc.Restate[u] = 1 + r.Intn(3)
 			}
 		}
+		if r.Intn(3) == 0 {
+			if sc.Restate == nil {
+				sc.Restate, sc.RSpell = map[string]int{}, map[string]int{}
+			}
+			sc.Restate["build"] = []int{1, 3, 3}[r.Intn(3)]
+		}
+		if r.Intn(4) == 0 {
+			if sc.Restate == nil {
+				sc.Restate, sc.RSpell = map[string]int{}, map[string]int{}
+			}
+			sc.Restate["depends_on"] = 3
+		}
 		if sc.Restate != nil {
-			for _, id := range []string{"ports.protocol", "ports.mode", "secrets.target", "env_file.required"} {
+			for _, id := range []string{"ports.protocol", "ports.mode", "secrets.target", "env_file.required", "build.context", "build.dockerfile"} {
 				sc.RSpell[id] = r.Intn(2)
 			}
 		}
@@ -1281,6 +1383,56 @@ func c11Oracle(ctx *core.Ctx) {
 							ctx.Count("meta-exh-restated-entry:" + unit)
 							ctx.Add("c11.meta", sc)
 						}
+					}
+				}
+			}
+		}
+	}
+	// round 7 — implicit vs explicit ACROSS layers: one layer defines the parent with every combination of I / D /
+	// another value for its default-able attributes, the other layer restates the parent bare, short (EXP) vs long
+	// (IMP); for the build section also a long restatement with its own I / D spelling per attribute
+	bareSites := map[string][]string{"depends_on": {"depends_on.condition", "depends_on.required"}, "build": {"build.context", "build.dockerfile"}, "ports": {"ports.protocol", "ports.mode"}, "secrets": {"secrets.target"}, "env_file": {"env_file.required"}}
+	for _, origin := range c11Origins {
+		if !c11TwoLayers(origin) {
+			continue
+		}
+		for layer := 0; layer < 2; layer++ {
+			for _, unit := range []string{"build", "ports", "secrets", "env_file", "depends_on"} {
+				ids := bareSites[unit]
+				n := 1
+				for range ids {
+					n *= 3
+				}
+				for combo := 0; combo < n; combo++ {
+					for variant := 0; variant < 6; variant++ {
+						// variants: 0 bare; 1 bare + the sibling switch of the unit (dockerfile_inline / format); 2..5 build only:
+						// long restatement, RSpell = variant-2
+						if variant >= 2 && unit != "build" || variant == 1 && (unit == "ports" || unit == "secrets" || unit == "depends_on") {
+							continue
+						}
+						sc := c11NewScenario(origin)
+						for _, k := range c11LayerKeys {
+							sc.Layer[k] = layer
+						}
+						sc.Restate, sc.RSpell = map[string]int{unit: 3}, map[string]int{}
+						c := combo
+						for _, id := range ids {
+							sc.Spell[id] = c % 3
+							c /= 3
+						}
+						switch {
+						case variant == 1 && unit == "build":
+							sc.Inline = true
+						case variant == 1:
+							sc.NullRes = true
+						case variant >= 2:
+							sc.Restate[unit] = 1
+							sc.RSpell["build.context"], sc.RSpell["build.dockerfile"] = (variant-2)&1, (variant-2)>>1
+						}
+						sc.ListDeps = combo%2 == 0
+						ctx.Count(fmt.Sprintf("meta-exh-cross-layer:%s/form%d", unit, sc.Restate[unit]))
+						ctx.Count("meta-origin:" + origin)
+						ctx.Add("c11.meta", sc)
 					}
 				}
 			}
